@@ -10,6 +10,18 @@ CLAIMED = {
    text="For digits 1..10 x 3 hashes: deriveRFC4226's SSA is executed symbolically with the HMAC digest as an uninterpreted function of (key, message); the solver proves, for every 64-bit counter, every key of the case-split lengths and every digest value, that exactly one HMAC of the parameter's hash is computed over the 8-byte big-endian counter under the given key, and that the returned string is the zero-padded decimal rendering of DT(digest) mod 10^digits (spec literal). GenerateHOTP is proved equal to deriveRFC4226(DecodeSecret(secret), counter, Digits, Algorithm) with nil = {6,SHA1} through the real base32 decoder on symbolic secret text; every unsupported Digits/Algorithm byte value is proved to yield (\"\", err) without panic.",
    note="Bounds: key lengths 20 (quick) / 0,1,20,65 (thorough) in derive, 0,1,10,20 (+5,16,32 thorough) in api; digits {1,6,8,9,10} quick, 1..10 thorough. Trusted: crypto/hmac+sha* compute HMAC (modelled as uninterpreted function; results hold for every digest), go/ssa, the executor (validated per run by native replay of one witness per harness instance), SMT solvers. Secret spellings other than upper-case unpadded are C07's subject.",
    design="DESIGN.md section 2/C01"),
+ "C02": dict(
+   text="GenerateTOTP's SSA (with time.Time.Unix from the standard library's SSA as the definition of Unix seconds) is executed on an arbitrary time.Time representation (wall/ext/loc fields symbolic under package time's invariant, with and without monotonic reading, three location shapes); the solver proves for every instant 0 <= u < 2^62 and every period 0..2^32 that exactly one derivation is made, with the decoded key, the parameter's digits and hash, and a counter n with n*p <= u < (n+1)*p in 128-bit arithmetic (p = 30 for period 0 and for nil parameters), that no panic is reachable, that two instants with equal Unix second but different nanoseconds / monotonic reading / location give the same derivation, and for fixed periods that the step advances exactly at multiples of the period.",
+   note="Bounds: u < 2^62, period <= 2^32 (as the property); boundary clause for periods {1,30,3600} quick, seven periods thorough; deriveRFC4226 and DecodeSecret replaced by their contracts (C01, C07). Outside: negative Unix times, a caller-replaced TimeCounterFunc. Trusted as in C01.",
+   design="DESIGN.md section 2/C02"),
+ "C03": dict(
+   text="ValidateHOTP/validateRFC4226/validate and crypto/subtle.ConstantTimeCompare are executed from their SSA with the code function CODE(key,counter,digits,hash) as an uninterpreted function (contract of deriveRFC4226 from C01) for every 64-bit counter with c+s <= 2^64-1, every key, every hash, window s per case; the submitted string is (a) arbitrary bytes, (b) the code of an arbitrary 64-bit counter, (c) such a code with one position replaced by an arbitrary byte; the solver proves accept <=> exists c' in [max(0,c-s), c+s] with string == CODE(c') (for (a): accept => ...), wrong lengths rejected, verdict/error agreement, window > 10 refused with zero derivations, nil parameters = {6, SHA-1, window 2}.",
+   note="Bounds: windows {0,1,2,10} quick / 0..10 thorough, digits 6 quick / {1,6,8,10} thorough; lengths d-6,d-1,d+1(,d+2). The 65-bit window arithmetic of the spec is independent of the code's guard. Contracts: deriveRFC4226 (C01), DecodeSecret (C07). Counterexample models are made independent of the uninterpreted function by soft constraints (no collisions near the window) before native replay.",
+   design="DESIGN.md section 2/C03"),
+ "C04": dict(
+   text="ValidateTOTP is executed from its SSA: (base) with the real time-counter hook on an arbitrary instant and symbolic period the solver proves the single derivation of skew 0 uses n with n*p <= u < (n+1)*p (period 0 and nil parameters = 30 s) and accept <=> string == CODE(n); (window) with the package's replaceable time-counter hook returning an arbitrary step n >= s the solver proves accept <=> exists k in [-s,s]: string == CODE(n+k) for arbitrary bytes / codes of arbitrary steps / single-byte edits, that the hook is evaluated once with the resolved period; (refuse) every skew > 10 is refused with zero derivations, with the loop's unwinding assertion (bound 40) treated as a violation of the bounded-work clause.",
+   note="Bounds: skews {0,1,2,10} quick / 0..10 thorough; periods {0,30} quick, {0,1,30,3600,2^32} thorough in window, symbolic 0..2^32 in base; u < 2^62. Contracts as C03.",
+   design="DESIGN.md section 2/C04"),
 }
 
 NA_REASON_PENDING = "not yet built in this session: no solver-based check registered (see DESIGN.md for the planned encoding)"
